@@ -28,6 +28,8 @@ type Obligation struct {
 	Query    string  `json:"-"` // standalone script
 	Goal     string  `json:"goal,omitempty"`
 	Note     string  `json:"note,omitempty"`
+	Hinted   string  `json:"-"` // equisatisfiable variant: goal skolemised, same-binder assumptions instantiated
+	PC       string  `json:"-"` // path condition of the program point (a named disjunction after merges)
 }
 
 // Env is the verification environment for one top-level function (or lemma).
@@ -178,7 +180,10 @@ func (e *Env) oblige(kind, label, pc, goal string) *Obligation {
 		ob.Verdict, ob.Solver, ob.OK = "unsat", "trivial", true
 		return ob
 	}
-	ob.Query = e.sess.Prefix() + "(assert " + mkAnd(pc, mkNot(goal)) + ")\n(check-sat)\n"
+	prefix := e.sess.Prefix()
+	ob.Query = prefix + "(assert " + mkAnd(pc, mkNot(goal)) + ")\n(check-sat)\n"
+	ob.PC = pc
+	ob.Hinted = hintedScript(prefix, pc, goal)
 	e.pending.Add(1)
 	go func() {
 		defer e.pending.Done()
@@ -233,15 +238,52 @@ func (e *Env) discharge(ob *Obligation) {
 			r SolveResult
 			j job
 		}
-		ch := make(chan jres, len(jobs))
+		if ob.Hinted != "" {
+			jobs = append(jobs, job{ob.Hinted, 0, "(skolem-hints)", false}, job{ob.Hinted, 3, "(skolem-hints)", false})
+		}
+		subs := splitScripts(script, ob.PC)
+		if ob.Hinted != "" {
+			subs = splitScripts(ob.Hinted, ob.PC)
+		}
+		ch := make(chan jres, len(jobs)+1)
 		solverSlots <- struct{}{}
 		for _, j := range jobs {
 			go func(j job) { ch <- jres{runSolver(ctx, solvers[j.solver], j.script, e.timeoutMs), j} }(j)
 		}
+		njobs := len(jobs)
+		if len(subs) > 1 {
+			// case split over the paths merged into this program point: every case must be unsat
+			njobs++
+			go func() {
+				res := make(chan SolveResult, len(subs))
+				for _, sub := range subs {
+					go func(sub string) {
+						c2, cancel2 := context.WithCancel(ctx)
+						defer cancel2()
+						rc := make(chan SolveResult, 2)
+						for _, si := range []int{0, 3} {
+							go func(si int) { rc <- runSolver(c2, solvers[si], sub, e.timeoutMs) }(si)
+						}
+						r := <-rc
+						if r.Verdict != Unsat {
+							r = <-rc
+						}
+						res <- r
+					}(sub)
+				}
+				all := SolveResult{Verdict: Unsat, Solver: "z3-5.1.0"}
+				for range subs {
+					if r := <-res; r.Verdict != Unsat {
+						all.Verdict = Unknown
+					}
+				}
+				ch <- jres{all, job{tag: fmt.Sprintf("(split-%d-paths)", len(subs))}}
+			}()
+		}
 		var tried []string
 		r2 := SolveResult{Verdict: Unknown}
 		t0 := time.Now()
-		for range jobs {
+		for i := 0; i < njobs; i++ {
 			x := <-ch
 			if x.r.Verdict == Unsat || (x.r.Verdict == Sat && x.j.full) {
 				r2 = x.r
@@ -462,5 +504,151 @@ func pruneScript(script string, rounds int) string {
 	if dropped == 0 {
 		return ""
 	}
+	return sb.String()
+}
+
+// splitScripts splits an obligation whose path condition is a (named) disjunction of merged
+// paths into one script per path: the conjunction of the cases is equivalent to the original.
+func splitScripts(script, pc string) []string {
+	defs := map[string]string{}
+	lines := strings.Split(script, "\n")
+	for _, ln := range lines {
+		if strings.HasPrefix(ln, "(assert (= |d!") {
+			if args := topArgs(ln[len("(assert ") : len(ln)-1]); len(args) == 3 && strings.HasPrefix(args[2], "(or ") {
+				defs[args[1]] = args[2]
+			}
+		}
+	}
+	var expand func(t string, depth int) []string
+	expand = func(t string, depth int) []string {
+		if d, ok := defs[t]; ok {
+			t = d
+		}
+		if !strings.HasPrefix(t, "(or ") || depth > 2 {
+			return []string{t}
+		}
+		var out []string
+		for _, a := range topArgs(t)[1:] {
+			out = append(out, expand(a, depth+1)...)
+		}
+		return out
+	}
+	// the path condition may be a conjunction whose first conjunct is the merged name
+	cases := expand(pc, 0)
+	if len(cases) < 2 || len(cases) > 12 {
+		return nil
+	}
+	// insert the case assumption before the goal (last assert)
+	gi := -1
+	for i := len(lines) - 1; i >= 0; i-- {
+		if strings.HasPrefix(lines[i], "(assert ") {
+			gi = i
+			break
+		}
+	}
+	if gi < 0 {
+		return nil
+	}
+	var out []string
+	for _, c := range cases {
+		var sb strings.Builder
+		sb.WriteString(strings.Join(lines[:gi], "\n"))
+		sb.WriteString("\n(assert " + c + ")\n")
+		sb.WriteString(strings.Join(lines[gi:], "\n"))
+		out = append(out, sb.String())
+	}
+	return out
+}
+
+// hintedScript builds an equisatisfiable variant of an obligation whose goal is a universal
+// formula: the bound variables become fresh constants, and every assumption quantified over
+// exactly the same binder list (typically the same invariant clause, assumed at the loop head)
+// is additionally instantiated at those constants. Instances of assumptions are consequences
+// of them, so an unsat answer for the variant is an unsat answer for the obligation.
+func hintedScript(prefix, pc, goal string) string {
+	g := goal
+	if strings.HasPrefix(g, "(= true ") {
+		if a := topArgs(g); len(a) == 3 {
+			g = a[2]
+		}
+	}
+	if !strings.HasPrefix(g, "(forall (") {
+		return ""
+	}
+	fa := topArgs(g)
+	if len(fa) != 3 {
+		return ""
+	}
+	binders, body := fa[1], fa[2]
+	if strings.HasPrefix(body, "(! ") {
+		body = topArgs(body)[1]
+	}
+	var names, sorts []string
+	for _, b := range topArgs("(x " + binders[1:len(binders)-1] + ")")[1:] {
+		ba := topArgs(b)
+		if len(ba) != 2 {
+			return ""
+		}
+		names = append(names, ba[0])
+		sorts = append(sorts, ba[1])
+	}
+	if len(names) == 0 || len(names) > 3 {
+		return ""
+	}
+	repl := make([]string, 0, 2*len(names))
+	var sb strings.Builder
+	sb.WriteString(prefix)
+	for i, n := range names {
+		sk := "|sk" + strings.Trim(n, "|") + "|"
+		repl = append(repl, n, sk)
+		sb.WriteString("(declare-const " + sk + " " + sorts[i] + ")\n")
+	}
+	r := strings.NewReplacer(repl...)
+	key := "(forall " + binders + " "
+	hints := 0
+	for _, ln := range strings.Split(prefix, "\n") {
+		if !strings.HasPrefix(ln, "(assert ") {
+			continue
+		}
+		rest := ln
+		out := ""
+		changed := false
+		for {
+			k := strings.Index(rest, key)
+			if k < 0 {
+				break
+			}
+			depth, j := 0, k
+			for ; j < len(rest); j++ {
+				if rest[j] == '(' {
+					depth++
+				} else if rest[j] == ')' {
+					depth--
+					if depth == 0 {
+						break
+					}
+				}
+			}
+			if j >= len(rest) {
+				break
+			}
+			fb := topArgs(rest[k : j+1])
+			if len(fb) != 3 {
+				break
+			}
+			b := fb[2]
+			if strings.HasPrefix(b, "(! ") {
+				b = topArgs(b)[1]
+			}
+			out += rest[:k] + r.Replace(b)
+			rest = rest[j+1:]
+			changed = true
+		}
+		if changed && hints < 60 {
+			sb.WriteString(out + rest + "\n")
+			hints++
+		}
+	}
+	sb.WriteString("(assert " + mkAnd(pc, mkNot(r.Replace(body))) + ")\n(check-sat)\n")
 	return sb.String()
 }
